@@ -37,8 +37,18 @@ pub fn define(
 
 
 
+    // Names in the fields are looked up from where the
+    // definition stands: under the last symbol declared before it
+    let mut symbol_ctx = util::SymbolContext::new_global();
+
     for any_node in &ast.nodes
     {
+        if let asm::AstAny::Symbol(ast_symbol) = any_node
+        {
+            let item_ref = ast_symbol.item_ref.unwrap();
+            symbol_ctx = decls.symbols.get(item_ref).ctx.clone();
+        }
+
         if let asm::AstAny::DirectiveBankdef(node) = any_node
         {
             let item_ref = node.item_ref.unwrap();
@@ -51,6 +61,7 @@ pub fn define(
                         report,
                         decls,
                         defs,
+                        &symbol_ctx,
                         expr)?
                     .expect_usize(report, expr.span())?,
             };
@@ -72,6 +83,7 @@ pub fn define(
                         report,
                         decls,
                         defs,
+                        &symbol_ctx,
                         expr)?
                     .expect_usize(report, expr.span())?),
             };
@@ -84,6 +96,7 @@ pub fn define(
                         report,
                         decls,
                         defs,
+                        &symbol_ctx,
                         expr)?
                     .expect_bigint(report, expr.span())?
                     .clone(),
@@ -97,6 +110,7 @@ pub fn define(
                         report,
                         decls,
                         defs,
+                        &symbol_ctx,
                         expr)?
                     .expect_usize(report, expr.span())?),
             };
@@ -109,6 +123,7 @@ pub fn define(
                         report,
                         decls,
                         defs,
+                        &symbol_ctx,
                         expr)?
                     .expect_bigint(report, expr.span())?
                     .clone()),
@@ -166,6 +181,7 @@ pub fn define(
                         report,
                         decls,
                         defs,
+                        &symbol_ctx,
                         expr)?
                     .expect_usize(report, expr.span())?),
             };
